@@ -374,8 +374,9 @@ impl Scenario for Canonical {
     }
     fn generate(&self, rng: &mut Rng, tier: Tier, run: u64) -> Value {
         let huge = rng.chance(1);
-        let size = if huge { SizeClass::Huge } else { draw_size(rng, 0) };
-        let ic = draw_ic(rng, huge);
+        let gigantic = rng.below(4000) == 0;
+        let size = if gigantic { SizeClass::Gigantic } else if huge { SizeClass::Huge } else { draw_size(rng, 0) };
+        let ic = if gigantic { *rng.pick(&[1u8, 2, 4]) } else { draw_ic(rng, huge) };
         let a = draw_archive(rng, size, ic);
         let n = a.tiles.len() as u32;
         let every = if tier == Tier::Quick { 60 } else { 400 };
